@@ -37,6 +37,10 @@ type c20Client struct {
 	pw   string
 	otps []string
 	out  []string
+	// sequential fault runs (TestC20Faults)
+	fault func() harness.FaultPlan
+	fired bool
+	dead  bool // a request never returned: the client gives up
 }
 
 func sortedKeysOf(m map[string]string) string {
@@ -67,7 +71,22 @@ func (c *c20Client) note(step string, r *harness.Resp) {
 }
 
 func (c *c20Client) do(step, method, path string, form map[string]string, query url.Values) *harness.Resp {
-	r := c.w.Do(harness.Req{Browser: c.i, Method: method, Path: path, Form: form, Query: query})
+	if c.dead {
+		return &harness.Resp{Hung: true}
+	}
+	q := harness.Req{Browser: c.i, Method: method, Path: path, Form: form, Query: query}
+	if c.fault != nil {
+		q.Fault = c.fault()
+	}
+	r := c.w.Do(q)
+	if r.Fired != "" {
+		c.fired = true
+	}
+	if r.Hung {
+		c.dead = true
+		c.out = append(c.out, step+": NO ANSWER")
+		return r
+	}
 	c.note(step, r)
 	return r
 }
